@@ -121,3 +121,35 @@ func vfH_C15_fec_false_alarm_retune() {
 	// ghost ownership (double Put / use after Put) is asserted by the pool stub on every access
 	vfAssert("c15/pool-balance", vfPoolLive() >= 0)
 }
+
+// buffer ownership on the session's transmit paths: a full post-processing queue (the output
+// callback drops and recycles), and a socket write error in the middle of a batch
+func vfH_C15_tx_paths() {
+	ck := []int{vfCipherNil, vfCipherNone}[vfPick("cipher", 0, 1)]
+	d, p := vfPickFEC()
+	conn := vfNewConn()
+	s := vfNewSession(vfU32("conv"), d, p, nil, conn, vfServerAddr, vfMakeCipher(ck))
+	s.SetNoDelay(0, 100, 0, 1)
+	vfSetClock(vfU32("t0"))
+	switch vfPick("case", 0, 1) {
+	case 0:
+		// queue full: everything the core emits is dropped by the callback
+		for len(s.chPostProcessing) < cap(s.chPostProcessing) {
+			s.chPostProcessing <- sendRequest{defaultBufferPool.Get()[:40], false}
+		}
+		live0 := vfPoolLive()
+		s.Write(vfBytes("m", 3))
+		vfReach("written")
+		vfAssert("c15/dropped-output-buffers-are-recycled", vfPoolLive() == live0+1) // +1: the segment itself stays queued
+	case 1:
+		s.Write(vfBytes("m0", 3))
+		s.Write(vfBytes("m1", 2))
+		conn.failTx = true
+		live0 := vfPoolLive()
+		vfDrainTx(s)
+		vfReach("written")
+		vfAssert("c15/tx-error-recycles-the-whole-batch", vfPoolLive() < live0)
+		vfAssert("c15/tx-error-reported", s.socketWriteError.Load() != nil)
+	}
+	vfReach("done")
+}
